@@ -30,6 +30,7 @@ QUICK_PAIRS = [('milli', 'sec'), ('sec', 'milli'), ('nano', 'micro'), ('micro', 
                ('sec', 'sec'), ('r5_7', 'sec'), ('sec', 'r5_7'), ('ntsc', 'sec'), ('sec', 'ntsc'), ('nano', 'milli')]
 I16_PAIRS = [('milli', 'sec'), ('sec', 'milli'), ('sec', 'min'), ('min', 'sec'), ('min', 'hour'), ('hour', 'min'), ('third', 'sec'), ('sec', 'third'),
              ('r5_7', 'third'), ('third', 'r5_7'), ('hour', 'day'), ('day', 'hour')]
+DIVDEF_Q = [('milli', 'sec'), ('sec', 'sec'), ('min', 'hour')]
 FLOAT_PAIRS_Q = [('milli', 'sec'), ('sec', 'milli'), ('r5_7', 'ntsc'), ('min', 'third')]
 # mixed Rep: (REPW, REP2W) -> per tier the (From period, To period) pairs and the solver order that was measured to finish
 MIXED = {
@@ -42,6 +43,9 @@ MIXED = {
     # verdict from any back end even for |a| < 2^12, so ('sec','milli') only carries the confirm query of the known finding
     (64, 164): dict(quick=[('milli', 'sec'), ('sec', 'milli')], more=[], solver=['cvc5', 'kissat'], confirm_only=[('sec', 'milli')]),
 }
+
+# (Rep width, From, To) for which cvc5 gives no verdict on round == std::chrono over the whole domain (measured, 40 s budget)
+ROUND_STD_HARD = set()
 
 SMT = ['cvc5int']          # decided by cvc5 on the exported VC (integer view of the bit-vector VC)
 SMTF = ['cvc5', 'kissat']  # floating point: cvc5 (shares identical terms of the two libraries); SAT only to obtain a trace
@@ -104,12 +108,16 @@ def wide(d, n=8):
     return d is not None and d[1] - d[0] >= n
 
 
-def int_queries(tier, w, f, t, arith=True, rlim_div=20, dlim=6, bud=90):
+def int_queries(tier, w, f, t, arith=True, rlim_div=20, dlim=6, bud=90, divdef=True):
     fn, fd = PERIODS[f]; tn, td = PERIODS[t]
     D = domains(w, fn, fd, tn, td)
     full16 = (w == 16)
     rlim = 0 if (D['cd'] == 1 or full16) else rlim_div
-    cfg = {'REPW': w, 'FN': fn, 'FD': fd, 'TN': tn, 'TD': td, 'RLIM': rlim, 'DLIM': dlim, 'ALIM': 16 if w > 16 else 0}
+    cfg = {'REPW': w, 'FN': fn, 'FD': fd, 'TN': tn, 'TD': td, 'RLIM': rlim, 'DLIM': dlim, 'ALIM': 12 if w > 16 else 0}
+    pd = lcm(fd, td)
+    no_round = pd * pd > (1 << 63) - 1   # etl::lcm(d, d) overflows: round<> does not compile for this pair (see kernel.cpp)
+    if no_round:
+        cfg['NO_ROUND'] = 1
     out = []
 
     def add(entry, solver, **kw):
@@ -118,13 +126,18 @@ def int_queries(tier, w, f, t, arith=True, rlim_div=20, dlim=6, bud=90):
     if wide(D['floor']): add('q_floor', SMT + SAT)
     if wide(D['ceil']): add('q_ceil', SMT + SAT)
     if wide(D['round']):
-        add('q_round', (SMT + SAT) if rlim == 0 and not full16 else SAT)
         add('q_tp_casts', SMT)
+    if wide(D['round']) and not no_round:
+        add('q_round', (SMT + SAT) if rlim == 0 and not full16 else SAT)
+        if (w, f, t) not in ROUND_STD_HARD:
+            add('q_round_std', SMT)
         if 1 < D['cd'] < (1 << 18) and D['round'][0] <= -2 * D['cd'] and D['round'][1] >= 2 * D['cd']:
             add('q_reach', SAT)
     if arith and wide(D['a']) and wide(D['b']):
-        add('q_add', SAT); add('q_sub', SAT); add('q_common', SAT); add('q_cmp', SAT); add('q_tp_cmp', SAT)
-        add('q_moddiv', SMT); add('q_moddef', SAT); add('q_divdef', SAT)
+        add('q_add', SMT + SAT); add('q_sub', SMT + SAT); add('q_common', SAT); add('q_cmp', SAT); add('q_tp_cmp', SAT)
+        add('q_moddiv', SMT); add('q_moddef', SAT)
+        if divdef:
+            add('q_divdef', SAT)
     return out
 
 
@@ -159,11 +172,11 @@ def queries(tier, prop='C12'):
     out = []
     pairs = QUICK_PAIRS if quick else [(a, b) for a in PERIODS for b in PERIODS]
     bud = 90 if quick else 600
-    rlim_div = 20 if quick else 24
-    dlim = 6 if quick else 8
+    rlim_div = 16 if quick else 20
+    dlim = 5 if quick else 6
     for w in (32, 64):
         for i, (f, t) in enumerate(pairs):
-            out += int_queries(tier, w, f, t, arith=(not quick or i % 2 == 0), rlim_div=rlim_div, dlim=dlim, bud=bud)
+            out += int_queries(tier, w, f, t, arith=(not quick or i % 2 == 0), rlim_div=rlim_div, dlim=dlim, bud=bud, divdef=(not quick or (f, t) in DIVDEF_Q))
         for f in (['milli', 'r5_7'] if quick else list(PERIODS)):
             out += unary_queries(w, f, dlim, bud)
     for (f, t) in (I16_PAIRS if quick else [(a, b) for a in PERIODS for b in PERIODS]):
@@ -177,12 +190,16 @@ def queries(tier, prop='C12'):
         for (f, t) in (m['quick'] if quick else m['quick'] + m['more']):
             out += mixed_queries(w1, w2, f, t, bud, m['solver'], (f, t) in m.get('confirm_only', []))
     if prop == 'C02':
-        # UB build of the same kernels, functional assertions off: one query per kernel call and configuration
-        seen = set(); sub = []
+        # UB build of the same kernels, functional assertions off: the library code runs on its whole documented domain
+        keep = QUICK_PAIRS[:10] if quick else QUICK_PAIRS
+        keepc = {(PERIODS[f] + PERIODS[t]) for (f, t) in keep} | {(PERIODS[f] + (1, 1)) for f in PERIODS}
+        sub = []
         for q in out:
-            if q['entry'] in ('q_reach', 'q_tp_cmp', 'q_moddef', 'q_divdef', 'q_cdivdef', 'q_cmul_std', 'q_period'):
+            c = q['cfg']
+            if q['entry'] in ('q_reach', 'q_tp_cmp', 'q_moddef', 'q_divdef', 'q_cdivdef', 'q_cmul_std', 'q_period', 'q_round_std'):
                 continue
-            q = dict(q, ub=True, nofunc=True, solver=(SAT + SMT) if q['solver'] is not SMTF else SMTF)
-            sub.append(q)
+            if (c['FN'], c['FD'], c['TN'], c['TD']) not in keepc and c['REPW'] < 100 and 'REP2W' not in c:
+                continue
+            sub.append(dict(q, ub=True, nofunc=True))
         return sub
     return out
